@@ -508,9 +508,9 @@ def run(ctx):
     ctx.rule("R1.8", "Record._pack emits one value per slot unless an explicit argument excludes it")
     check_pack_exclusion(ctx, "R1.8")
 
-    # ------------------------------------------------------------------ R1.8 elements of typed lists
+    # ------------------------------------------------------------------ R1.9 elements of typed lists
     from .packer_common import check_typedlist_pack
-    check_typedlist_pack(ctx, "R1.8")
+    check_typedlist_pack(ctx, "R1.9")
 
 
 def _always_leaves(stmts) -> bool:
